@@ -5,6 +5,7 @@ import random
 import subprocess
 import time
 
+from bcverif import encode as E
 from bcverif.runner import MachineryError, SPEC, pmap, setup_repo_import, suite_events
 
 LEVEL_SHIFTS = [17, 20, 23, 26, 29]
@@ -137,7 +138,7 @@ def _rq_events(args):
                     if len(res.genes) != len(got):
                         got = got + [0]
                 except Exception as ex:  # judged as a wrong answer
-                    got = [0, type(ex).__name__]
+                    got = [0, E.exc_name(ex)]
                 ev.append(["rq", qs, qe, cw, spans, got])
     for _ in range(n):
         sh = rnd.choice([17, 17, 20])
@@ -185,7 +186,7 @@ def _rq_events(args):
                     if len(res.genes) != len(got):
                         got = got + [0]
                 except Exception as ex:  # judged as a wrong answer
-                    got = [0, type(ex).__name__]
+                    got = [0, E.exc_name(ex)]
                 ev.append(["rq", qs, qe, cw, spans, got])
     return ev
 
